@@ -20,6 +20,8 @@
 //	interim s1 <ans> [!k]                    => ok|skip acc=..
 //	interim s1 <ans> @17:stop:s1:<cause>:<ans> => ok acc=.. inj=17:ok|-|-   (StopSession runs to completion while the
 //	                                            interim update is parked in front of its send)
+//	start s1 i1 <ans> @2:stop:s1:<cause>:<ans>  => ok acc=.. inj=2:refused|-|-  (StopSession of the session being started)
+//	stop s1 1 <ans> @5:stop:s1:<cause>:<ans>    => ok acc=.. inj=5:refused|-|-  (a second StopSession; notfound at marker 6)
 //	stop s1 <cause> <ans> [!k]               => ok|notfound acc=..
 //	deq <ans> [!k]                           => empty | done acc=.. ord=<rN|->
 //	retry <ans> [!k]                         => done acc=.. ord=<rN,...|->
@@ -299,8 +301,9 @@ type run struct {
 }
 
 // injection = one step of the background processor executed while an API call is parked at a marker, or (kind
-// stop, marker 17 only) a complete StopSession call executed while an interim update - a goroutine of its own in
-// production - is parked in front of its send
+// stop) a complete StopSession call executed while an interim update - a goroutine of its own in production - is
+// parked in front of its send (marker 17), or while a StartSession (markers 1, 2) / another StopSession (markers
+// 3-6) of the SAME session is parked (callers on different goroutines: session setup vs PADT, PADT vs CoA Disconnect)
 type injection struct {
 	at      int    // marker id
 	kind    string // deq | retry | stop
@@ -375,6 +378,9 @@ func (r *run) runInjected(inj *injection) {
 		inj.res = "ok"
 		if err := r.am.StopSession(inj.sid, inj.cause); err != nil {
 			inj.res = "notfound"
+			if strings.Contains(err.Error(), "in progress") {
+				inj.res = "refused"
+			}
 		}
 	}
 	r.nested = nil
@@ -721,16 +727,17 @@ func parseInject(toks []string) ([]string, []*injection, bool) {
 	var out []*injection
 	for len(toks) > 0 && strings.HasPrefix(toks[len(toks)-1], "@") {
 		f := strings.Split(toks[len(toks)-1][1:], ":")
-		if len(f) == 5 && f[0] == "17" && f[1] == "stop" && validSid(f[2]) && okAns(f[4]) {
+		if len(f) == 5 && f[1] == "stop" && validSid(f[2]) && okAns(f[4]) {
 			cause, err := strconv.ParseUint(f[3], 10, 32)
-			if err != nil {
+			at, err2 := strconv.Atoi(f[0])
+			if err != nil || err2 != nil || !(at == 17 || (at >= 1 && at <= 6)) {
 				return toks, nil, false
 			}
 			a := f[4]
 			if a == "-" {
 				a = ""
 			}
-			out = append([]*injection{{at: 17, kind: "stop", sid: f[2], cause: uint32(cause), ans: a}}, out...)
+			out = append([]*injection{{at: at, kind: "stop", sid: f[2], cause: uint32(cause), ans: a}}, out...)
 			toks = toks[:len(toks)-1]
 			continue
 		}
@@ -891,6 +898,17 @@ func (r *run) Do(op string) string {
 	default:
 		if len(inject) != 0 {
 			return "badop" // a processor step can only be injected into an API call (the processor itself is one goroutine)
+		}
+	}
+	for _, inj := range inject {
+		// a StopSession overlapping StartSession / StopSession: of the SAME session only (markers 1-2 / 3-6)
+		if inj.kind == "stop" && inj.at != 17 {
+			if !(toks[0] == "start" && inj.at <= 2) && !(toks[0] == "stop" && inj.at >= 3) {
+				return "badop"
+			}
+			if len(toks) < 2 || toks[1] != inj.sid {
+				return "badop"
+			}
 		}
 	}
 	switch toks[0] {
